@@ -221,6 +221,14 @@ def run(ck: Checker):
 
     with ck.as_rule('C14-8', 'exception transport: the RemoteException obligations C15-1..5, on which "carries the server-side traceback" rests', minimum=5):
         c15.run(ck)
+    # ------------------------------------------------------------------ C14-12
+    # "state changes are visible through every proxy of that object": a proxy whose object was destroyed under it (a
+    # decrement too many, a transit reference not taken) answers RemoteError / KeyError instead -- the reference-count
+    # obligations of C13 are decided here as well
+    from . import c13
+
+    with ck.as_rule('C14-12', 'a proxy refers to a hosted object that is still there: the reference-count obligations C13-1..7 (construct +1 with a finaliser, pickle +1 in transit, rebuild adopts it, server bookkeeping, lookups by token.address, connection cache)', minimum=10):
+        c13.run(ck)
     # ------------------------------------------------------------------ C14-10 / C14-11
     ck.rule('C14-10', 'a usable proxy stays usable: a cached per-thread connection that is closed is removed from the cache on every path (typestate closed => not cached; MUSTPASS)', minimum=1)
     check_closed_conn_uncached(ck, 'C14-10')
